@@ -103,6 +103,9 @@ HistoryThm.vos HistoryThm.vok HistoryThm.required_vos: HistoryThm.v Base.vos Uni
 CsfThm.vo CsfThm.glob CsfThm.v.beautified CsfThm.required_vo: CsfThm.v Base.vo Units.vo UnitsThm.vo Contents.vo Container.vo ContainerThm.vo ContainerThm2.vo Plate.vo PlateThm.vo SizeThm.vo Dilute.vo Solve.vo SolveThm.vo
 CsfThm.vio: CsfThm.v Base.vio Units.vio UnitsThm.vio Contents.vio Container.vio ContainerThm.vio ContainerThm2.vio Plate.vio PlateThm.vio SizeThm.vio Dilute.vio Solve.vio SolveThm.vio
 CsfThm.vos CsfThm.vok CsfThm.required_vos: CsfThm.v Base.vos Units.vos UnitsThm.vos Contents.vos Container.vos ContainerThm.vos ContainerThm2.vos Plate.vos PlateThm.vos SizeThm.vos Dilute.vos Solve.vos SolveThm.vos
+C09Thm.vo C09Thm.glob C09Thm.v.beautified C09Thm.required_vo: C09Thm.v Base.vo Units.vo UnitsThm.vo Contents.vo Container.vo ContainerThm.vo ContainerThm2.vo Dilute.vo Solve.vo SolveThm.vo Plate.vo PlateThm.vo Prog.vo HistoryThm.vo Recipe.vo RecipeThm.vo
+C09Thm.vio: C09Thm.v Base.vio Units.vio UnitsThm.vio Contents.vio Container.vio ContainerThm.vio ContainerThm2.vio Dilute.vio Solve.vio SolveThm.vio Plate.vio PlateThm.vio Prog.vio HistoryThm.vio Recipe.vio RecipeThm.vio
+C09Thm.vos C09Thm.vok C09Thm.required_vos: C09Thm.v Base.vos Units.vos UnitsThm.vos Contents.vos Container.vos ContainerThm.vos ContainerThm2.vos Dilute.vos Solve.vos SolveThm.vos Plate.vos PlateThm.vos Prog.vos HistoryThm.vos Recipe.vos RecipeThm.vos
 Props/C06.vo Props/C06.glob Props/C06.v.beautified Props/C06.required_vo: Props/C06.v Base.vo Units.vo UnitsThm.vo GenBase.vo gen/UnitsGen.vo UnitsGenOK.vo
 Props/C06.vio: Props/C06.v Base.vio Units.vio UnitsThm.vio GenBase.vio gen/UnitsGen.vio UnitsGenOK.vio
 Props/C06.vos Props/C06.vok Props/C06.required_vos: Props/C06.v Base.vos Units.vos UnitsThm.vos GenBase.vos gen/UnitsGen.vos UnitsGenOK.vos
@@ -154,9 +157,9 @@ Props/C16.vos Props/C16.vok Props/C16.required_vos: Props/C16.v Base.vos GenBase
 Props/C08.vo Props/C08.glob Props/C08.v.beautified Props/C08.required_vo: Props/C08.v Base.vo Units.vo Contents.vo Container.vo Dilute.vo Solve.vo Plate.vo Prog.vo Recipe.vo RecipeThm.vo
 Props/C08.vio: Props/C08.v Base.vio Units.vio Contents.vio Container.vio Dilute.vio Solve.vio Plate.vio Prog.vio Recipe.vio RecipeThm.vio
 Props/C08.vos Props/C08.vok Props/C08.required_vos: Props/C08.v Base.vos Units.vos Contents.vos Container.vos Dilute.vos Solve.vos Plate.vos Prog.vos Recipe.vos RecipeThm.vos
-Props/C09.vo Props/C09.glob Props/C09.v.beautified Props/C09.required_vo: Props/C09.v Base.vo Recipe.vo
-Props/C09.vio: Props/C09.v Base.vio Recipe.vio
-Props/C09.vos Props/C09.vok Props/C09.required_vos: Props/C09.v Base.vos Recipe.vos
+Props/C09.vo Props/C09.glob Props/C09.v.beautified Props/C09.required_vo: Props/C09.v Base.vo Units.vo Contents.vo Container.vo ContainerThm.vo ContainerThm2.vo Dilute.vo Solve.vo Plate.vo PlateThm.vo Prog.vo HistoryThm.vo Recipe.vo RecipeThm.vo C09Thm.vo
+Props/C09.vio: Props/C09.v Base.vio Units.vio Contents.vio Container.vio ContainerThm.vio ContainerThm2.vio Dilute.vio Solve.vio Plate.vio PlateThm.vio Prog.vio HistoryThm.vio Recipe.vio RecipeThm.vio C09Thm.vio
+Props/C09.vos Props/C09.vok Props/C09.required_vos: Props/C09.v Base.vos Units.vos Contents.vos Container.vos ContainerThm.vos ContainerThm2.vos Dilute.vos Solve.vos Plate.vos PlateThm.vos Prog.vos HistoryThm.vos Recipe.vos RecipeThm.vos C09Thm.vos
 Props/C15.vo Props/C15.glob Props/C15.v.beautified Props/C15.required_vo: Props/C15.v Base.vo Units.vo Contents.vo Container.vo Dilute.vo Solve.vo Plate.vo Prog.vo Recipe.vo RecipeThm.vo FlowsThm.vo
 Props/C15.vio: Props/C15.v Base.vio Units.vio Contents.vio Container.vio Dilute.vio Solve.vio Plate.vio Prog.vio Recipe.vio RecipeThm.vio FlowsThm.vio
 Props/C15.vos Props/C15.vok Props/C15.required_vos: Props/C15.v Base.vos Units.vos Contents.vos Container.vos Dilute.vos Solve.vos Plate.vos Prog.vos Recipe.vos RecipeThm.vos FlowsThm.vos
